@@ -866,3 +866,62 @@ def format_overrides(ctx):
             ctx.ok(key, f.loc(bi, si), '%s := %s' % (name, 'None' if val is None else val))
         else:
             ctx.violation(key, f.loc(bi, si), '`%s` is set to %s instead of the format constant %s' % (name, expr_str(e)[:40], val))
+
+
+@rule('WRITE-LOOP-PROGRESS', ['C09', 'C18'], floor=2)
+def write_loop_progress(ctx):
+    """In the write loop of a splitting writer an iteration either copies bytes from the caller's buffer or
+    dispatches the full unit. On the branch where the amount to copy is zero (the staging buffer is already
+    full, e.g. because the previous dispatch failed with a sink error) the dispatch call must still be
+    reachable before the loop repeats; otherwise that iteration changes nothing and `write` spins forever."""
+    F = ctx.facts
+    n = 0
+    for w in F.fns:
+        if not (w.impl and last_seg(w.impl.get('trait')) == 'Write' and w.name == 'write' and w.self_adt):
+            continue
+        pw = Prov(w)
+        # staging field and the dispatch method (the same-type method that takes the staging buffer)
+        staging = None
+        for bi, t, c in w.calls():
+            if c.is_('Vec::extend_from_slice') and len(t['args']) == 2:
+                a0 = pw.operand(t['args'][0], 0, '%d:T' % bi)
+                base = a0[1] if a0[0] == 'ref' else a0
+                sf = self_field_of(base)
+                if sf and len(sf) == 1:
+                    staging = (sf[0], bi)
+        if not staging:
+            continue
+        fld, ext_block = staging
+        dispatch = []
+        for bi, t, c in w.calls():
+            for g in F.resolve_callee(c):
+                if g.self_adt == w.self_adt and g.kind != 'closure' and any(
+                        c2.is_('mem::take', 'mem::replace') for _, _, c2 in g.calls()):
+                    dispatch.append(bi)
+        if not dispatch:
+            continue
+        loops = [(h, body) for h, body in w.loops().items() if ext_block in body and any(d in body for d in dispatch)]
+        if not loops:
+            continue
+        h, body = max(loops, key=lambda x: len(x[1]))
+        # the switch that guards the copy: the extend block is reachable only through one of its edges
+        guard = None
+        for s, pol, cond in guards_of(w, ext_block, pw):
+            if s in body and s != h:
+                guard = (s, pol, cond)
+        if guard is None:
+            continue
+        n += 1
+        key = '%s:zero-copy-iteration-still-dispatches' % w.key
+        s, pol, cond = guard
+        e = switch_edges(w, s)
+        other = e[0] if pol else e[1]   # the edge taken when nothing is copied
+        # blocks reachable from that edge without passing the loop header again
+        reach = w.reach_from([other], stop={h})
+        if any(d in reach for d in dispatch):
+            ctx.ok(key, w.loc(s), 'when %s is false the dispatch call is still reached in the same iteration' % expr_str(cond)[:60])
+        else:
+            ctx.violation(key, w.loc(s), 'when %s is false (nothing can be copied because the unit buffer is already full) the iteration neither '
+                          'copies nor dispatches: after a failed dispatch the next write() never returns' % expr_str(cond)[:60])
+    if n == 0:
+        ctx.anchor_missing('write loop with a staging buffer and a dispatch method')
